@@ -381,10 +381,18 @@ impl TryFrom<&Constraint> for PerVisibleRangeConstraints {
                         Ok(v)
                     }
                 }?;
-                if let (PerVisibleRangeConstraints { min, max, .. }, true) =
-                    (&mut per_visible, c.extensible)
+                if let (
+                    PerVisibleRangeConstraints {
+                        min,
+                        max,
+                        is_size_constraint,
+                        ..
+                    },
+                    true,
+                ) = (&mut per_visible, c.extensible)
                 {
-                    if min.or(*max).is_some() {
+                    // `(SIZE (MIN..MAX), ...)` has no bound of its own, but is a size constraint
+                    if min.or(*max).is_some() || *is_size_constraint {
                         per_visible.extensible = true;
                     }
                 }
